@@ -186,7 +186,7 @@ def _series_ok(c, series, arts, names):
             continue
         cands = [a for a in arts if a["kind"] == "line" and matches(ex, ey, a, False)]
         if isinstance(label, list):
-            lab = names[label[1] - 1]
+            lab = names[label[1] - 1] + (label[2] if len(label) > 2 else "")
             if not any(a["label"] == lab for a in cands):
                 near = [a for a in arts if a["label"] == lab]
                 msgs.append("series of input %d (%r): expected x=%r y=%r, that label shows x=%r y=%r" % (label[1], lab, ex, ey, near[0]["x"] if near else None, near[0]["y"] if near else None))
